@@ -502,6 +502,28 @@ func (e *Engine) evalBuiltin(st *State, call *ast.CallExpr, name string) ([]Val,
 			return []Val{{smt.Ite(smt.Ge(a.T, b.T), a.T, b.T), ty}}, nil
 		}
 	}
+	if (name == "real" || name == "imag") && len(call.Args) == 1 {
+		// the parts of a complex number: functions of the value that respect ==
+		a, err := e.eval(st, call.Args[0])
+		if err != nil {
+			return nil, err
+		}
+		if !e.Decls.HasFun("cplx_re") {
+			e.Decls.Fun("cplx_re", []smt.Sort{smt.V}, smt.V)
+			e.Decls.Fun("cplx_im", []smt.Sort{smt.V}, smt.V)
+			x, y := smt.T{S: "x", Sort: smt.V}, smt.T{S: "y", Sort: smt.V}
+			re := func(t smt.T) smt.T { return smt.App(smt.V, "cplx_re", t) }
+			im := func(t smt.T) smt.T { return smt.App(smt.V, "cplx_im", t) }
+			feq := func(a, b smt.T) smt.T { return smt.App(smt.Bool, "flt_eq", a, b) }
+			e.Axioms = append(e.Axioms, smt.Forall([]smt.Bound{{Name: "x", Sort: smt.V}, {Name: "y", Sort: smt.V}},
+				smt.Eq(feq(x, y), smt.And(feq(re(x), re(y)), feq(im(x), im(y)))), feq(x, y)))
+		}
+		f := "cplx_re"
+		if name == "imag" {
+			f = "cplx_im"
+		}
+		return []Val{{smt.App(smt.V, f, a.T), e.typeOf(call)}}, nil
+	}
 	return nil, e.errf(call.Pos(), "builtin %s is outside the subset", name)
 }
 
@@ -973,6 +995,9 @@ func (e *Engine) sortSlice(st *State, call *ast.CallExpr, lit *ast.FuncLit) erro
 	a, b := smt.T{S: "a?s", Sort: smt.Int}, smt.T{S: "b?s", Sort: smt.Int}
 	st.Assume(smt.Forall([]smt.Bound{{Name: a.S, Sort: smt.Int}, {Name: b.S, Sort: smt.Int}},
 		smt.Implies(smt.And(smt.Le(smt.IntLit(0), a), smt.Lt(a, b), smt.Lt(b, n)), smt.And(instFacts(nw, b, a), smt.Not(inst(nw, b, a))))))
+	// a rearrangement of pairwise distinct elements is pairwise distinct
+	e.DeclDistinct()
+	st.Assume(smt.Implies(smt.App(smt.Bool, "distinct_elems", old), smt.App(smt.Bool, "distinct_elems", nw)))
 	// every element of the result is an element of the input and vice versa
 	kq := smt.T{S: "k?s", Sort: smt.Int}
 	lq := smt.T{S: "l?s", Sort: smt.Int}
